@@ -723,6 +723,23 @@ class _Mark:
         self.active = True
 
 
+def _get_in_progress() -> FrozenSet[_Mark]:
+    """
+    Retrieve the marks of the checks in progress for the current context.
+
+    The marks which were inherited from another context and whose calls are over (see ``_Mark``) are dropped, so that
+    they do not pile up along a chain of tasks or callbacks in which each one is started from the previous one.
+    """
+    in_progress = _IN_PROGRESS.get()
+    if not in_progress:
+        return frozenset()
+
+    if all(mark.active for mark in in_progress):
+        return in_progress
+
+    return frozenset(mark for mark in in_progress if mark.active)
+
+
 def _is_in_progress(
     in_progress: Iterable[_Mark], flow: Tuple[int, int], target: int
 ) -> bool:
@@ -810,9 +827,7 @@ def decorate_with_checker(func: CallableT) -> CallableT:
             # and restored afterwards. A mutable set would be shared by reference among all the copies of
             # the context (*e.g.*, asyncio tasks or threads started from a context which already ran a checker),
             # so that concurrent callers would suspend each other's contract checks.
-            in_progress = _IN_PROGRESS.get()
-            if in_progress is None:
-                in_progress = frozenset()
+            in_progress = _get_in_progress()
 
             flow = _current_flow()
 
@@ -906,9 +921,7 @@ def decorate_with_checker(func: CallableT) -> CallableT:
             # and restored afterwards. A mutable set would be shared by reference among all the copies of
             # the context (*e.g.*, asyncio tasks or threads started from a context which already ran a checker),
             # so that concurrent callers would suspend each other's contract checks.
-            in_progress = _IN_PROGRESS.get()
-            if in_progress is None:
-                in_progress = frozenset()
+            in_progress = _get_in_progress()
 
             flow = _current_flow()
 
@@ -1123,9 +1136,7 @@ def _decorate_new_with_invariants(new_func: CallableT) -> CallableT:
         # A __new__ of a derived class usually calls the (also wrapped) __new__ of its base and completes the object
         # afterwards. The object does not exist yet, so the class under instantiation is marked instead: only
         # the outermost __new__ hands over a finished object, and only that one checks the invariants.
-        in_progress = _IN_PROGRESS.get()
-        if in_progress is None:
-            in_progress = frozenset()
+        in_progress = _get_in_progress()
 
         flow = _current_flow()
         nested = len(args) > 0 and _is_in_progress(in_progress, flow, id(args[0]))
@@ -1212,9 +1223,7 @@ def _decorate_with_invariants(func: CallableT, is_init: bool) -> CallableT:
             # and restored afterwards. A mutable set would be shared by reference among all the copies of
             # the context (*e.g.*, asyncio tasks or threads started from a context which already ran a checker),
             # so that concurrent callers would suspend each other's contract checks.
-            in_progress = _IN_PROGRESS.get()
-            if in_progress is None:
-                in_progress = frozenset()
+            in_progress = _get_in_progress()
 
             flow = _current_flow()
             if _is_in_progress(in_progress, flow, id(instance)):
@@ -1276,9 +1285,7 @@ def _decorate_with_invariants(func: CallableT, is_init: bool) -> CallableT:
                 # and restored afterwards. A mutable set would be shared by reference among all the copies of
                 # the context (*e.g.*, asyncio tasks or threads started from a context which already ran a checker),
                 # so that concurrent callers would suspend each other's contract checks.
-                in_progress = _IN_PROGRESS.get()
-                if in_progress is None:
-                    in_progress = frozenset()
+                in_progress = _get_in_progress()
 
                 # The following dunder indicates whether another invariant is currently being checked. If so,
                 # we need to suspend any further invariant check to avoid endless recursion.
@@ -1334,9 +1341,7 @@ def _decorate_with_invariants(func: CallableT, is_init: bool) -> CallableT:
                 # and restored afterwards. A mutable set would be shared by reference among all the copies of
                 # the context (*e.g.*, asyncio tasks or threads started from a context which already ran a checker),
                 # so that concurrent callers would suspend each other's contract checks.
-                in_progress = _IN_PROGRESS.get()
-                if in_progress is None:
-                    in_progress = frozenset()
+                in_progress = _get_in_progress()
 
                 flow = _current_flow()
                 if not _is_in_progress(in_progress, flow, id(instance)):
